@@ -22,6 +22,7 @@ func init() {
 	scenarios["ui_sizes"] = func(r *Run) { scenUI(r, uiOpts{sizes: true, paged: true}) }
 	scenarios["ui_hook"] = func(r *Run) { scenUI(r, uiOpts{rich: true, hookFocus: true}) }
 	scenarios["ui_hostile"] = func(r *Run) { scenUI(r, uiOpts{hostile: true, paged: true}) }
+	scenarios["ui_race_sizes"] = func(r *Run) { scenUI(r, uiOpts{racing: true, sizes: true, paged: true}) }
 	scenarios["ui_hook_race"] = func(r *Run) { scenUI(r, uiOpts{racing: true, rich: true, hookFocus: true}) }
 }
 
@@ -262,7 +263,7 @@ func scenUI(r *Run, o uiOpts) {
 				seqs = append(seqs, &typing{b: act, last: -1})
 			}
 			advance()
-			if t.Chance(1, 6) {
+			if t.Chance(1, 6) || (o.sizes && t.Chance(1, 2)) {
 				u.Resize(12+t.Draw(109), 2+t.Draw(39))
 			}
 		}
